@@ -412,6 +412,10 @@ class Dependent:
             # The bound has a condition of its own (e.g. list[int]): it
             # must hold as well, not only its own bound (list).
             return Intersection[bound, dt.with_bound(bound.bound)]
+        if is_dependent(bound):
+            # A combination with value-dependent members (list[int] | str):
+            # their conditions must hold as well.
+            return Intersection[bound, dt.with_bound(bound)]
         return dt.with_bound(bound)
 
 
